@@ -129,6 +129,19 @@ func (bc *boundsCtx) upperBound0(v ssa.Value, at *ssa.BasicBlock, depth int) int
 					return u / k
 				}
 			}
+		case token.ADD:
+			ux, uy := bc.upperBound(x.X, at, depth+1), bc.upperBound(x.Y, at, depth+1)
+			if ux < posInf/2 && uy < posInf/2 && ux > -posInf/2 && uy > -posInf/2 {
+				return min(tm, ux+uy)
+			}
+		case token.MUL:
+			for _, pr := range [][2]ssa.Value{{x.X, x.Y}, {x.Y, x.X}} {
+				if k, ok := constInt(pr[1]); ok && k >= 0 && k < 1<<20 {
+					if u := bc.upperBound(pr[0], at, depth+1); u < posInf>>20 && u >= 0 && bc.lowerBound(pr[0], at, depth+1) >= 0 {
+						return min(tm, u*k)
+					}
+				}
+			}
 		}
 	case *ssa.Convert:
 		if u := bc.upperBound(x.X, at, depth+1); u < tm {
